@@ -398,6 +398,39 @@ pub fn in_list_cases(rng: &mut Rng, n: usize) -> Vec<(String, J)> {
     out
 }
 
+/// (i) operands of one || / && level whose texts differ only in blanks inside a string literal or
+/// a quoted name; (ii) range conditions built from two ordering comparisons with the literal on
+/// either side, evaluated on values that sit exactly on the bounds
+fn blank_and_range_cases() -> Vec<(String, J)> {
+    let mut out = vec![];
+    let o = |v: Vec<(&str, J)>| J::Obj(v.into_iter().map(|(k, v)| (k.to_string(), v)).collect());
+    let d1 = o(vec![("v", J::Arr(vec![
+        o(vec![("n", J::str("a b"))]), o(vec![("n", J::str("ab"))]), o(vec![("n", J::str("New York"))]), o(vec![("n", J::str("NewYork"))]), o(vec![("first name", J::int(1))]), o(vec![("firstname", J::int(2))]),
+        o(vec![("n", J::str("a  b"))]), o(vec![("n", J::str("a\tb"))]), o(vec![("n", J::str("x"))]),
+    ]))]);
+    for (a, b) in [("@.n == 'a b'", "@.n == 'ab'"), ("@.n != 'New York'", "@.n != 'NewYork'"), ("@['first name']", "@['firstname']"), ("@.n == 'a  b'", "@.n == 'a b'"), ("@.n == \"a b\"", "@.n == 'ab'"), ("@['first name'] == 1", "@['firstname'] == 2"), ("match(@.n, 'a b')", "match(@.n, 'ab')")] {
+        for f in [format!("{} || {}", a, b), format!("{} || {}", b, a), format!("{} && {}", a, b), format!("!({}) && !({})", a, b), format!("{} || @.zz || {}", a, b), format!("({} || {}) && @.n", a, b)] {
+            out.push((format!("$.v[?{}]", f), d1.clone()));
+        }
+    }
+    let vals: Vec<J> = vec![J::int(0), J::int(1), J::int(2), J::int(4), J::int(5), J::int(6), J::float(1.0), J::float(5.0), J::float(0.999), J::float(5.001), J::str("1"), J::Null];
+    let mut elems: Vec<J> = vals.iter().map(|v| o(vec![("p", v.clone()), ("l", J::Arr(vec![v.clone(), J::int(3)]))])).collect();
+    elems.push(o(vec![("q", J::int(3))]));
+    let d2 = o(vec![("v", J::Arr(elems)), ("lo", J::int(1)), ("hi", J::int(5))]);
+    for lo in ["1 < {}", "1 <= {}", "{} > 1", "{} >= 1", "1.0 < {}", "{} >= 1e0"] {
+        for hi in ["{} < 5", "{} <= 5", "5 > {}", "5 >= {}", "{} < 5.0", "5e0 >= {}"] {
+            for subj in ["@.p", "@['p']", "@.l[0]"] {
+                let (l, h) = (lo.replace("{}", subj), hi.replace("{}", subj));
+                out.push((format!("$.v[?{} && {}]", l, h), d2.clone()));
+                out.push((format!("$.v[?{} && {}]", h, l), d2.clone()));
+            }
+            out.push((format!("$.v[?@.l[?{} && {}]]", lo.replace("{}", "@"), hi.replace("{}", "@")), d2.clone()));
+            out.push((format!("$.v[?!({} && {})]", lo.replace("{}", "@.p"), hi.replace("{}", "@.p")), d2.clone()));
+        }
+    }
+    out
+}
+
 /// count() / value() / length() over multi-segment queries inside a filter that itself stands in
 /// an existence test (state set for the outer test must not reach the inner evaluation)
 fn functions_inside_tests(rng: &mut Rng, n_docs: usize) -> Vec<(String, J)> {
@@ -470,6 +503,7 @@ pub fn run(ctx: &Ctx) -> Result<Evidence, String> {
     ladder_cases.extend(confusable_cases(&mut rng, ctx.tier.pick(24, 96)));
     let n_confusable_end = ladder_cases.len();
     ladder_cases.extend(in_list_cases(&mut rng, ctx.tier.pick(4000, 100_000)));
+    ladder_cases.extend(blank_and_range_cases());
     let n_inlist_end = ladder_cases.len();
     ladder_cases.extend(functions_inside_tests(&mut rng, ctx.tier.pick(60, 1500)));
     let ladders: Vec<(String, Doc)> = ladder_cases.into_iter().map(|(q, d)| (q, Doc::new(&d))).collect();
